@@ -1118,13 +1118,13 @@ def run(ctx):
     have_model &= check_cases(ctx, hand, sig, "hand")
     cyc = gen_cycles(ctx.rng("cycles"), ctx.tier == "thorough")
     have_model &= check_cases(ctx, cyc, sig, "cycles")
-    er = gen_erasures(ctx.rng("erasures"), sig, ctx.scale(500, 6000), 4)
+    er = gen_erasures(ctx.rng("erasures"), sig, ctx.scale(500, 15000), 4)
     for c in er[:3]:
         ctx.sample({"kind": c["kind"], "orig": tm_str(c["orig"]), "skeleton": tm_str(c["skel"])})
     have_model &= check_cases(ctx, er, sig, "erasures")
-    rs = gen_random_skeletons(ctx.rng("random"), sig, ctx.scale(2500, 40000))
+    rs = gen_random_skeletons(ctx.rng("random"), sig, ctx.scale(2500, 100000))
     have_model &= check_cases(ctx, rs, sig, "random")
-    mu = gen_mutants(ctx.rng("mutants"), sig, ctx.scale(1000, 15000), 4)
+    mu = gen_mutants(ctx.rng("mutants"), sig, ctx.scale(1000, 40000), 4)
     for c in mu[:2]:
         ctx.sample({"kind": c["kind"], "skeleton": tm_str(c["skel"])})
     have_model &= check_cases(ctx, mu, sig, "mutants")
@@ -1156,7 +1156,8 @@ MANIFEST = {
     "text": "Lean theorems about an executable model of type_infer (uf / reach / union / unify / infer / final loop, with the fixes "
             "C08-1 and C08-2): infer_sound (a returned term type-checks, has the skeleton's shape, keeps annotations and declared types, one type "
             "per unannotated variable name, constants at instances of their signature type, no internal type variable left), unify_sound "
-            "(uf solves every equation unified so far), union_preserves_reach + infer_preserves_reach + final_loop_terminates (the final "
+            "(uf solves every equation unified so far), erasure_recovery_partial (variable types dropped, variables declared: the original term "
+            "comes back), union_preserves_reach + infer_preserves_reach + final_loop_terminates (the final "
             "substitution loop terminates on every state the traversal can reach). Model tied to syntax/infertype.py by differential runs on "
             "generated skeletons; the real type_infer is judged on every generated skeleton by an oracle that needs no model "
             "(checked_get_type, shape, annotations, declared types, instances, no _tN, exact recovery of erased well-typed terms, and an "
